@@ -102,6 +102,16 @@ def run(chk: core.Check, tier: str, seed: int) -> None:
                       "$[?@.a <= @.b]", "$[?@.a == $[1].a]", "$[?match(@.a, 'a')]", "$[?value(@.a) != 1]", "$[0].a", "$[?@.a]", "$[0]['a', 'b']"):
                 recs.append(impl.rec_total(jp, q, doc))
             del doc
+    # evaluation-time errors must be JSONPathErrors whose string form can be produced (descendant segments over data
+    # deeper than the default limit, cyclic data)
+    cyc = {"a": []}
+    cyc["a"].append(cyc)
+    for doc in (_deep(150, 1, "arr"), _deep(150, 1, "mix"), [_deep(150, 1, "obj")], cyc):
+        for q in ("$..*", "$[0]..*", "$[?count(@..*) > 0]", "$..[?@..a]", "$.a..a", "$\n..\n*"):
+            recs.append(impl.rec_total(jp, q, doc))
+    # regular expressions that keep a backtracking engine busy for a second or so, and then finish: slow is not an error
+    for pat, n in (("(a|a)*b", 18), ("(a|aa)*b", 24), ("(a|b|ab)*c", 20)):
+        recs.append(impl.rec_total(jp, f"$[?match(@, '{pat}')]", ["a" * n + "bc", "a" * n + "x", "ab"]))
     # the nondeterministic mode is total as well
     from .. import probes  # noqa: PLC0415
     nd = probes.make_env(jp, [], [], nondeterministic=True)
